@@ -133,10 +133,22 @@ class CSSParser:
         :returns:
             :class:`~cssutils.css.CSSStyleSheet`.
         """
+        return self.__parseString(cssText, encoding, None, href, media, title, validate)
+
+    def __parseString(
+        self, cssText, encodingOverride, encoding, href, media, title, validate
+    ):
+        """Parse `cssText`. `encodingOverride` is an encoding given by the
+        caller, it also overrides the encoding information of imported sheets.
+        `encoding` has been found for this sheet only (HTTP, BOM, @charset),
+        imported sheets merely inherit it.
+        """
         with self.__parseSetting():
             # TODO: py3 needs bytes here!
             if isinstance(cssText, bytes):
-                cssText = codecs.getdecoder('css')(cssText, encoding=encoding)[0]
+                cssText = codecs.getdecoder('css')(
+                    cssText, encoding=encodingOverride
+                )[0]
 
             if validate is None:
                 validate = self._validate
@@ -151,7 +163,8 @@ class CSSParser:
             # tokenizing this ways closes open constructs and adds EOF
             sheet._setCssTextWithEncodingOverride(
                 self.__tokenizer.tokenize(cssText, fullsheet=True),
-                encodingOverride=encoding,
+                encodingOverride=encodingOverride,
+                encoding=encoding,
             )
         return sheet
 
@@ -211,18 +224,19 @@ class CSSParser:
         encoding, enctype, text = cssutils.util._readUrl(
             href, fetcher=self.__fetcher, overrideEncoding=encoding
         )
-        if enctype == 5:
-            # do not use if defaulting to UTF-8
-            encoding = None
-
         if text is not None:
-            return self.parseString(
+            # only an encoding given by the caller (enctype 0) overrides the
+            # encoding information of imported sheets; one found for this
+            # sheet (HTTP, BOM, @charset) is inherited; not used at all if
+            # defaulting to UTF-8 (enctype 5)
+            return self.__parseString(
                 text,
-                encoding=encoding,
-                href=href,
-                media=media,
-                title=title,
-                validate=validate,
+                encoding if enctype == 0 else None,
+                encoding if 0 < enctype < 5 else None,
+                href,
+                media,
+                title,
+                validate,
             )
 
     def setFetcher(self, fetcher=None):
